@@ -35,9 +35,50 @@ fn run_once(ctx: &Ctx, cmd: &[&str], file: &Path, variant: usize) -> (i32, Vec<u
     }
     let mut child = c.spawn().expect("spawn zydeco");
     let _ = child.stdin.take().unwrap().write_all(b"3\nline\n");
-    let out = child.wait_with_output().expect("wait");
-    (out.status.code().unwrap_or(-1), out.stdout, mask_thread_ids(out.stderr))
+    // bounded wait: a program that never terminates (echo loops on end of input) is not a determinism
+    // question; its output is read up to a cap and the process is killed at the deadline
+    const CAP: usize = 1 << 20;
+    let read_capped = |mut r: Box<dyn std::io::Read + Send>| {
+        std::thread::spawn(move || {
+            let mut buf = Vec::new();
+            let mut chunk = [0u8; 8192];
+            loop {
+                match r.read(&mut chunk) {
+                    | Ok(0) | Err(_) => break,
+                    | Ok(n) => {
+                        if buf.len() < CAP {
+                            buf.extend_from_slice(&chunk[..n.min(CAP - buf.len())]);
+                        }
+                    }
+                }
+            }
+            buf
+        })
+    };
+    let out_t = read_capped(Box::new(child.stdout.take().unwrap()));
+    let err_t = read_capped(Box::new(child.stderr.take().unwrap()));
+    let deadline = std::time::Instant::now() + std::time::Duration::from_secs(20);
+    let status = loop {
+        match child.try_wait() {
+            | Ok(Some(st)) => break Some(st),
+            | Ok(None) if std::time::Instant::now() >= deadline => {
+                let _ = child.kill();
+                let _ = child.wait();
+                break None;
+            }
+            | Ok(None) => std::thread::sleep(std::time::Duration::from_millis(5)),
+            | Err(_) => break None,
+        }
+    };
+    let (stdout, stderr) = (out_t.join().unwrap_or_default(), err_t.join().unwrap_or_default());
+    match status {
+        | Some(st) => (st.code().unwrap_or(-1), stdout, mask_thread_ids(stderr)),
+        | None => (TIMED_OUT, vec![], vec![]),
+    }
 }
+
+/// exit status standing for "killed at the deadline": such runs are not compared
+const TIMED_OUT: i32 = i32::MIN;
 
 /// A Rust panic message names the OS thread id (`thread 'main' (12345) panicked`), which is not a
 /// function of the sources; crashes themselves are C10/C18's subject.  Mask the id.
@@ -77,9 +118,19 @@ pub fn check_file(ctx: &Ctx, file: &Path, runs: usize, stats: &mut Stats) -> Res
     for cmd in COMMANDS {
         let first = run_once(ctx, cmd, file, 0);
         stats.eval();
+        if first.0 == TIMED_OUT {
+            stats.inconclusive += 1;
+            stats.count("inconclusive:process-did-not-terminate-within-20s");
+            continue;
+        }
         for k in 1..runs {
             let next = run_once(ctx, cmd, file, k);
             stats.eval();
+            if next.0 == TIMED_OUT {
+                stats.inconclusive += 1;
+                stats.count("inconclusive:process-did-not-terminate-within-20s");
+                break;
+            }
             let what = if next.0 != first.0 {
                 Some(("exit-status", format!("{} vs {}", first.0, next.0)))
             } else if next.1 != first.1 {
